@@ -140,18 +140,14 @@ func (c *compiler) getTypeSize(ty ddpIrType) uint64 {
 	return c.llTarget.targetData.TypeAllocSize(ty.LLVMType())
 }
 
+// replaces the characters of a path that may not appear in a symbol name
+// the replacement is injective (every _ in the result starts an escape sequence),
+// so different paths (x/y.ddp and x_y.ddp) never yield the same name
+var hashableModuleNameReplacer = strings.NewReplacer("_", "_u", "/", "_s", ":", "_c")
+
 func getHashableModuleName(mod *ast.Module) string {
-	return "ddp_" + strings.TrimSuffix(
-		strings.ReplaceAll(
-			strings.ReplaceAll(
-				filepath.ToSlash(mod.FileName),
-				"/",
-				"_",
-			),
-			":",
-			"_",
-		),
-		".ddp",
+	return "ddp_" + hashableModuleNameReplacer.Replace(
+		strings.TrimSuffix(filepath.ToSlash(mod.FileName), ".ddp"),
 	)
 }
 
